@@ -303,6 +303,17 @@ func checkC13(c *Ctx) {
 	}, nil)
 	c.states += st.States
 	c.Note(fmt.Sprintf("explicit-state search: %d canonical buffer states, %d transitions, depth %d, closed=%v", st.States, st.Transitions, st.Depth, st.Closed))
+	ld := 2
+	if !c.Quick() {
+		ld = 3
+	}
+	stL := bufferBFSFrom(c, "C13/state-large", largeInits(largeSizes(c.Quick())), ld, maxStates, func(s *buffer.Buffer, w *Worker) {
+		if d := c13AtState(s, w); d != "" {
+			w.Fail("accessor-or-reset", stateCase{State: s.VerifState()}, d)
+		}
+	}, nil)
+	c.states += stL.States
+	c.Note(fmt.Sprintf("explicit-state search from large buffers (sizes %v, escaped and pending): %d states, %d transitions, depth %d", largeSizes(c.Quick()), stL.States, stL.Transitions, stL.Depth))
 	ev := func(al []Op, idx []int, w *Worker) (string, string) {
 		return "seq-accessor-or-reset", c13EvalSeq(al, idx, w)
 	}
